@@ -16,6 +16,7 @@ from . import c03_gen as G
 from . import c03_util as U
 from . import c03_corpus as K
 from . import c03
+from . import c03_sdecl as SD
 
 PID = 'C12'
 DRIVERS = ['sv']
@@ -33,6 +34,29 @@ ASSUMPTIONS = c03.ASSUMPTIONS + [
 ]
 RULE = c03.RULE + '; C12: port data types drawn from Bits / flat, nested and list-field bitstructs / lists of ports / interfaces; every leaf of every port is driven or observed in every cycle'
 
+# ---- begin: flat ports, wire forms, flat port <-> wire form connections, instances and operand rendering of the Yosys structural
+#      translator (Model/SDecl.lean, Props/C03d.lean, harness/checks/c03_sdecl.py)
+DRIVERS = DRIVERS + SD.DRIVERS
+MODULE = [MODULE, SD.MODULE]
+THEOREMS = THEOREMS + SD.THEOREMS_YOSYS
+THEOREM_MODULE = {t: SD.MODULE for t in SD.THEOREMS_YOSYS}
+TRUSTED = TRUSTED + SD.TRUSTED
+ASSUMPTIONS = ASSUMPTIONS + SD.ASSUMPTIONS
+# ---- end
+
+# ---- begin: signedness of the Yosys backend's `integer` loop variables (Model/SV.lean `signedOf` / `evalC`, Model/VTr.lean `signSafe`,
+#      Proofs/SVSigned.lean; known finding C12-yosys-signed-loopvar)
+THEOREMS = THEOREMS + ['PV.C12.' + t for t in [
+  'expr_correct_yosys_ctx', 'signed_loopvar_counterexample', 'signed_loopvar_mod_counterexample', 'counterexamples_not_signSafe']]
+ASSUMPTIONS = ASSUMPTIONS + [
+  'expr_correct_yosys / stmt_correct_yosys hold under `signSafe .yosys` (no `< <= > >=` / `%` node whose two operands are both signed, i.e. built '
+  'from loop variables only): without it the emitted text differs from PyMTL (signed_loopvar_counterexample) - known finding C12-yosys-signed-loopvar; '
+  'the condition is syntactic: a `%` of two signed operands under an unsigned enclosing context is excluded although the text is correct there',
+  'an index / shift amount is the bit pattern of its self-determined operand read as an unsigned number, also when the operand is signed '
+  "(`x[3'(i)]`, i = 4, addresses element 4 as in the upstream Verilator import tests of the Yosys backend; by the letter of the LRM a negative index is out of range)",
+]
+# ---- end
+
 BE = 'yosys'
 
 def run(ck):
@@ -47,6 +71,7 @@ def run(ck):
   for k in range(cfg['finding_each'] + 1): corpus += G.gen_history(random.Random(rng.getrandbits(64)), BE)
   U.run_batch(ck, BE, corpus, stats, cfg['ncycles'] + 2, cfg['nstores'])
   fd = [dict(w) for w in K.WITNESSES if BE in w['backends']]      # canonical witnesses first, then randomised instances
+  fd += G.extra_witnesses(BE, PID)                                 # (witnesses kept as replay files: known_replays/C12-yosys-signed-loopvar.json)
   # (pending streams run once their finding is registered for this property in known_findings.json)
   streams_ = dict(G.FINDING_STREAMS)
   streams_.update({f: v for f, v in G.PENDING_STREAMS.items() if G.registered(f, PID)})
@@ -59,7 +84,9 @@ def run(ck):
         want = ['field-write', 'nested-leaf', 'struct-wire', 'comp-array', 'struct-tmpvar', 'const-array-field'][k % 6]
         while d['variant'] != want: d = G.gen_finding(random.Random(rng.getrandbits(64)), BE, fid)
       fd.append(d)
-  U.run_batch(ck, BE, fd, stats, cfg['ncycles'], 2, tie=False)
+  # (the designs of the signed-loop-variable finding keep the per-block tie: Model/VTr.lean emits the same signed forms as the real backend)
+  U.run_batch(ck, BE, [d for d in fd if d.get('finding') != G.YSL], stats, cfg['ncycles'], 2, tie=False)
+  U.run_batch(ck, BE, [d for d in fd if d.get('finding') == G.YSL], stats, cfg['ncycles'], 3, tie=True)
   done = 0
   while done < cfg['clean_c12']:
     n = min(cfg['batch'], cfg['clean_c12'] - done)
@@ -74,6 +101,7 @@ def run(ck):
     if ck.tier == 'quick' and ck.elapsed() > 75: break
   ck.extra_cov['pipeline'] = stats
   ck.extra_cov['designs'] = {'corpus': len(corpus), 'finding_streams': len(fd), 'clean': done}
+  SD.run(ck, BE)   # last, so that the PRNG streams above do not move: declarations / wire forms / instances vs Model/SDecl
 
 def replay(ck, data):
   return c03.replay(ck, data)
